@@ -137,7 +137,19 @@ def run(case):
     except IndexError:
         ref, rerr = None, "IndexError"
     try:
-        out, err = seq.index_as_cube[idx], None
+        slicer = seq.index_as_cube
+        if case["wseed"] % 3 == 1:
+            # the same slicer object asked something else first (a request with an entry for every axis, integers
+            # off the common axis; then one that is refused): a request is answered from its own item alone
+            prior = [0] * len(shapes[0])
+            prior[ca] = slice(0, 1)
+            for pr in (tuple(prior), (slice(None, None, 2),), (10 ** 6,)):
+                try:
+                    slicer[pr]
+                except Exception:
+                    pass
+            tags.append("slicer-reused")
+        out, err = slicer[idx], None
     except Exception as e:
         out, err = None, err_kind(e)
     res["impl"] = {"err": err}
